@@ -5,14 +5,14 @@ CONSTANTS
   KeyTab <- MCKeyTab
   CurSeq <- MCCurSeq
   Special <- MCSpecial
-  Ledgers <- LedgersThorough
+  Ledgers = {}
   OpenArgs <- Open06
   CloseArgs <- Close06
   ClearArgs = {TRUE, FALSE}
   Filters <- FNone
   Order <- OrderStated
   CompileMode = "stated"
-INIT Init
+INIT InitThorough
 NEXT Next
 INVARIANTS KeepInv BalanceSheetInv IncomeInv EquityInv TxBalanceInv LayoutInv FilterInv CompileInv SortedInv ExpectInv
 CHECK_DEADLOCK FALSE
